@@ -727,38 +727,40 @@ pub fn run() {
     }
     let thorough = args.tier == Tier::Thorough;
     let budget = args.budget(20_000, 400_000, 20);
-    let t0 = std::time::Instant::now();
-    fold(&mut rep, explore::<Basic>("C31", TEST, args.seed, thorough, budget), "basic", true);
-    fold(&mut rep, explore::<Atomic>("C31", TEST, args.seed, thorough, budget), "atomic", true);
-    fold(&mut rep, explore::<Keyed>("C31", TEST, args.seed, thorough, budget), "keyed", true);
-    fold(&mut rep, explore::<Buffer>("C31", TEST, args.seed, thorough, budget), "buffer", true);
-    let mut flows_run = vec!["basic", "atomic", "keyed", "buffer"];
+    // One summary per flow, printed as soon as the flow is done: if a later flow makes the simulator abort the
+    // process (its internal errors are `abort()`s), what was already judged is not lost.
+    drop(rep);
+    run_flow::<Basic>(&args, thorough, budget, 500);
+    run_flow::<Atomic>(&args, thorough, budget, 20);
+    run_flow::<Keyed>(&args, thorough, budget, 500);
+    run_flow::<Buffer>(&args, thorough, budget, 100);
     if thorough || std::env::var("VERIF_C31_MULTI").is_ok() {
-        fold(&mut rep, explore::<Multi>("C31", TEST, args.seed, thorough, budget), "multi", true);
-        flows_run.push("multi");
+        run_flow::<Multi>(&args, thorough, budget, 500);
     }
+}
+
+/// `want_exhaustive`: minimum number of exhaustive executions (the atomic flow leaves the simulator few choices,
+/// its exhaustive space is small by construction).
+fn run_flow<F: Corpus>(args: &Args, thorough: bool, budget: usize, want_exhaustive: u64) {
+    let mut rep = Reporter::new("C31", args.seed);
+    let t0 = std::time::Instant::now();
+    fold(&mut rep, explore::<F>("C31", TEST, args.seed, thorough, budget), F::NAME, true);
+    rep.extra("flow", json!(F::NAME));
     rep.extra("seconds", json!(t0.elapsed().as_secs_f64()));
-    for f in flows_run {
-        // the atomic flow leaves the simulator few choices (its exhaustive space is small by construction)
-        let want = match f {
-            "atomic" => 20,
-            "buffer" => 100,
-            _ => 500,
-        };
+    let f = F::NAME;
+    rep.require(
+        rep.counter(&format!("{f}_exhaustive_executions")) >= want_exhaustive,
+        &format!("flow {f}: fewer than {want_exhaustive} exhaustive executions"),
+    );
+    rep.require(
+        rep.counter(&format!("{f}_nontrivial_executions")) >= 50,
+        &format!("flow {f}: fewer than 50 non-trivial executions"),
+    );
+    if args.tier != Tier::Miri {
         rep.require(
-            rep.counter(&format!("{f}_exhaustive_executions")) >= want,
-            &format!("flow {f}: fewer than {want} exhaustive executions"),
+            rep.counter(&format!("{f}_fuzz_executions")) as usize >= budget * 9 / 10,
+            &format!("flow {f}: fuzz schedules did not complete"),
         );
-        rep.require(
-            rep.counter(&format!("{f}_nontrivial_executions")) >= 50,
-            &format!("flow {f}: fewer than 50 non-trivial executions"),
-        );
-        if args.tier != Tier::Miri {
-            rep.require(
-                rep.counter(&format!("{f}_fuzz_executions")) as usize >= budget * 9 / 10,
-                &format!("flow {f}: fuzz schedules did not complete"),
-            );
-        }
     }
     rep.finish(RULE, true);
 }
